@@ -60,7 +60,7 @@ def run_probe(features, probe, seed, iters=None, timeout=900):
     return dict(status="norun", detail=(p.stdout + p.stderr)[-600:])
 
 
-def probes_for(file, header, fn):
+def probes_for(file, header, fn, pid=None):
     """which (features, probe) pairs exercise the function `file :: header :: fn`"""
     f = file or ""
     h = header or ""
@@ -77,6 +77,11 @@ def probes_for(file, header, fn):
     if f.startswith("src/min_curve"):
         return [("min", "min.all")]
     if f.startswith("src/ark_curve/r1cs"):
+        # C14 is about adversarial hints only; C13 about the honest prover
+        if pid == "C14":
+            return [("r1cs", "r1cs.hints")]
+        if pid == "C13":
+            return [("r1cs", "r1cs.d6")]
         return [("r1cs", "r1cs.d6"), ("r1cs", "r1cs.hints")]
     if f.endswith("ark_curve/encoding.rs") or f.endswith("ark_curve/serialize.rs"):
         if re.search(r'decompress|try_from|deserialize', fn) or "TryFrom" in h or "Deserialize" in h:
@@ -107,7 +112,7 @@ def search(pid, unit, mm, fm, seed):
     """first failing input found for the function of a failed obligation, or {}"""
     if not os.path.isdir(RUNNER):
         return {}
-    for (feat, probe) in probes_for(mm.get("file"), mm.get("header"), fm.get("display", fm.get("fn", ""))):
+    for (feat, probe) in probes_for(mm.get("file"), mm.get("header"), fm.get("display", fm.get("fn", "")), pid):
         r = run_probe(feat, probe, seed or 1, iters=96)
         if r.get("status") == "cex":
             return dict(input=r.get("input"), check=r.get("check"), got=r.get("got"), want=r.get("want"), cmd=r.get("cmd"), probe=probe, build=feat)
